@@ -128,6 +128,8 @@ def realize(repo: Repo, chk: Check) -> None:
         chk.result(bool(has_fact(s, ["$u in $us"], {"u": tv})) or any("not in" in ast.unparse(st) and "continue" in ast.unparse(st) for st in body[:1]), rule, key + ":is-use", s.where(),
                    "only ops that use the cast value are considered")
         # classification of the use
+        if flag_if is not None and _classified_by_helper(repo, chk, f, flag_if.test, tv, op, which, rule, key, s):
+            continue
         if flag_if is not None and any(isinstance(c_, ast.Call) and isinstance(c_.func, ast.Name) and c_.func.id not in ("isinstance", "len", "bool") for c_ in ast.walk(flag_if.test)):
             raise AnalysisError(f"{s.where()}: whether a use {'reads' if which == 'copy-in' else 'writes'} the buffer is decided by `{ast.unparse(flag_if.test)[:60]}`, a helper the clause does not read")
         flag = ast.unparse(flag_if.test) if flag_if is not None else None
@@ -161,6 +163,89 @@ def realize(repo: Repo, chk: Check) -> None:
         ok_al = "layout" in kws and "memory_space" in kws and depends_on(kws["layout"], "$op.dest.type.layout", binds={"op": op}) and depends_on(
             kws["memory_space"], "$op.dest.type.memory_space", binds={"op": op})
     chk.result(ok_al, "C12.copy-in", f"{f.key}:alloc-type", al[0].where() if al else f.where, "the stand-in buffer has the cast's destination layout and memory space")
+
+
+KERNEL_KINDS = ("GenericOp", "StreamingRegionOpBase")
+
+
+def _classified_by_helper(repo: Repo, chk: Check, f: Func, test: ast.expr, tv: str, op: str, which: str, rule: str, key: str, s) -> bool:
+    """the read / write test of a use is `helper(use, cast value)`, a plain function of the module: the clauses are judged on the helper's
+    return sites (path conditions + returned expression).  False = the test is not of this form."""
+    if not (isinstance(test, ast.Call) and isinstance(test.func, ast.Name) and test.func.id in f.module.funcs and not test.keywords):
+        return False
+    h = f.module.funcs[test.func.id]
+    params = [a.arg for a in h.node.args.args]
+    if len(params) != len(test.args):
+        return False
+    u = v = None
+    for p_, a_ in zip(params, test.args):
+        if isinstance(a_, ast.Name) and a_.id == tv:
+            u = p_
+        elif norm.any_match(["$op.results[0]", "$op.dest"], a_, {"op": op}) is not None:
+            v = p_
+    if u is None or v is None:
+        return False
+    chk.analysed(h.key)
+    hfl = Flow(h, repo)
+    side = "inputs" if which == "copy-in" else "outputs"
+    member = [f"{v} in {u}.{side}"]
+    rets = [r for r in hfl.stmts(ast.Return) if r.reachable and r.node.value is not None]
+    if not rets:
+        raise AnalysisError(f"{h.where}: no return in the classification helper")
+    covered: set[str] = set()
+    bad_kernel: list[str] = []
+    ret_writer: list[str] = []
+    for r in rets:
+        for alt in r.state.alts:
+            facts = [x.expr for x in alt.facts.values() if x.kind == "atom"] + [x.expr for x in r.extra if x.kind == "atom"]
+            env = {k_: v_ for k_, v_ in alt.env.items()}
+            from sa.flow import expand as _expand
+            res = norm.canon(norm.primary(_expand(r.node.value, env)))
+            pos: set[str] = set()
+            neg: set[str] = set()
+            for e_ in facts:
+                e_ = norm.primary(e_)
+                negated = norm.is_not(e_)
+                core = e_.operand if negated else e_  # type: ignore[attr-defined]
+                parts = core.values if isinstance(core, ast.BoolOp) and isinstance(core.op, ast.Or) and not negated else [core]
+                kinds_here: set[str] = set()
+                all_inst = True
+                for p2 in parts:
+                    m = norm.match(T("isinstance($u, $k)"), p2, {"u": u})
+                    if m is None:
+                        all_inst = False
+                        continue
+                    kinds_here |= {k for k in (*KERNEL_KINDS, "ReturnOp") if k in ast.unparse(m["k"])}
+                if not all_inst:
+                    continue
+                (neg if negated else pos).update(kinds_here)
+            # the returned expression may itself carry the case split: `return not isinstance(u, ReturnOp)` / `isinstance(..) and v in ..`
+            txt = ast.unparse(res)
+            if pos & set(KERNEL_KINDS):
+                covered |= pos & set(KERNEL_KINDS)
+                ok_ = norm.any_match(member, res) is not None or (isinstance(res, ast.Constant) and res.value is True and any(norm.any_match(member, e_) is not None for e_ in facts))
+                if not ok_:
+                    bad_kernel.append(f"{r.where()}: for {sorted(pos & set(KERNEL_KINDS))} the answer is `{txt[:60]}`")
+            elif set(KERNEL_KINDS) <= neg:
+                if which == "copy-out" and "ReturnOp" not in neg and "ReturnOp" not in pos:
+                    if norm.any_match(["not isinstance($u, $k)"], res, {"u": u}) is not None and "ReturnOp" in txt:
+                        pass
+                    elif isinstance(res, ast.Constant) and res.value is True:
+                        ret_writer.append(f"{r.where()}: ops that are no kernels, func.return included, count as writers")
+                    elif not (isinstance(res, ast.Constant) and res.value is False):
+                        raise AnalysisError(f"{r.where()}: the answer for other ops is `{txt[:60]}`, a form this clause does not read")
+                elif which == "copy-out" and "ReturnOp" in pos and not (isinstance(res, ast.Constant) and res.value is False):
+                    ret_writer.append(f"{r.where()}: func.return answers `{txt[:40]}`")
+            else:
+                raise AnalysisError(f"{r.where()}: a return of {h.name} is reached without a decided kernel-kind test ({sorted(pos)} / not {sorted(neg)})")
+    chk.result(not bad_kernel, rule, key + ":classification", s.where(),
+               f"a kernel op {'reads' if which == 'copy-in' else 'writes'} the buffer iff the cast value is in its {side} (decided in {h.name})",
+               f"{bad_kernel[:2]}; expected `cast value in use_op.{side}` (an operand used as both input and output must count for both copies)")
+    chk.result(covered == set(KERNEL_KINDS), rule, key + ":kernel-kinds", s.where(), "linalg.generic and dart streaming regions are classified by operand role",
+               f"only {sorted(covered)} are classified by operand role in {h.name}")
+    if which == "copy-out":
+        chk.result(not ret_writer, rule, key + ":return-not-output", s.where(), "func.return is never treated as a writer", "; ".join(ret_writer[:2]))
+    return True
 
 
 def _norm_loop(n: ast.While, var: str) -> str:
